@@ -117,7 +117,7 @@ def aligned(got, meta_all):
 
 def realise(k):
     kind = k[0]
-    if kind in ('int', 'name'):
+    if kind in ('int', 'name', 'pybool'):
         return k[1]
     if kind == 'slice':
         return slice(*k[1])
@@ -162,7 +162,7 @@ def translate_col(ck, names):
 
 
 GRAMMAR_COLS = ('absent', 'int', 'name', 'slice', 'list', 'tuple', 'ell')
-OTHER_COLS = ('blist', 'npint', 'nparr', 'npbool', 'none')
+OTHER_COLS = ('blist', 'npint', 'nparr', 'npbool', 'none', 'pybool')
 
 
 def evaluate(d, base, meta, rk, ck):
@@ -274,7 +274,7 @@ def col_keys(D, names):
         out.append(('npbool', list(t)))
     out += [('blist', [True] * (D + 1)), ('npint', 0), ('npint', -1), ('nparr', [0]), ('nparr', [D - 1, 0]),
             ('list', [0, D]), ('list', ['zz']), ('list', [names[0], 'zz']), ('list', [names[0], 'lab0']),
-            ('tuple', ['lab%d' % (D - 1), 0]), ('none',)]
+            ('tuple', ['lab%d' % (D - 1), 0]), ('none',), ('pybool', True), ('pybool', False)]     # a bare bool is no position
     return out
 
 
@@ -355,7 +355,7 @@ def _rowkey(draw, N, keep2d=False):
 @st.composite
 def _colkey(draw, D, names, keep2d=False):
     kinds = ['absent', 'slice', 'list'] if keep2d else \
-        ['absent', 'int', 'name', 'slice', 'list', 'list', 'tuple', 'ell', 'blist', 'npint', 'nparr', 'npbool', 'badname', 'none']
+        ['absent', 'int', 'name', 'slice', 'list', 'list', 'tuple', 'ell', 'blist', 'npint', 'nparr', 'npbool', 'pybool', 'badname', 'none']
     kind = draw(st.sampled_from(kinds))
     item = st.one_of(st.integers(-D, D - 1), st.sampled_from(names))
     if kind == 'absent':
@@ -373,6 +373,8 @@ def _colkey(draw, D, names, keep2d=False):
         return [kind, draw(st.lists(item, min_size=1 if (kind == 'tuple' or keep2d) else 0, max_size=4))]
     if kind == 'ell':
         return ['ell']
+    if kind == 'pybool':
+        return ['pybool', draw(st.booleans())]
     if kind in ('blist', 'npbool'):
         return [kind, draw(st.lists(st.booleans(), min_size=D, max_size=D))]
     if kind == 'npint':
@@ -418,11 +420,58 @@ def _chain_case(draw):
     return dict(arm='chain', N=N, D=D, chain=chain, assign=assign, via=draw(st.sampled_from(['path', 'path', 'handle'])))
 
 
+@st.composite
+def _col_rows_case(draw):
+    # one channel of a few events (a 1-D column that is still a sample), then a further selection of events from it
+    N = draw(st.integers(1, 6))
+    D = draw(st.integers(1, 4))
+    c = draw(st.integers(0, D - 1))
+    v = st.one_of(st.none(), st.integers(-N, N))
+    rk1 = draw(st.one_of(st.tuples(v, v).map(lambda t: ['slice', [t[0], t[1], None]]),
+                         st.lists(st.integers(0, N - 1), min_size=0, max_size=3).map(lambda l: ['ilist', l]),
+                         st.lists(st.booleans(), min_size=N, max_size=N).map(lambda l: ['bmask', l])))
+    k = len(np.zeros(N)[realise(rk1)])
+    key2 = draw(st.one_of(st.lists(st.integers(-k, k - 1), min_size=0, max_size=4).map(lambda l: ['ilist', l]) if k else st.just(['ilist', []]),
+                          st.tuples(v, v).map(lambda t: ['slice', [t[0], t[1], None]]),
+                          st.lists(st.booleans(), min_size=k, max_size=k).map(lambda l: ['bmask', l])))
+    return dict(arm='col_rows', N=N, D=D, c=c, by_name=draw(st.booleans()), rk1=rk1, key2=key2)
+
+
 def strategy(tier):
-    return _chain_case()
+    return st.one_of(_chain_case(), _chain_case(), _chain_case(), _chain_case(), _col_rows_case())
+
+
+def _check_col_rows(case, obs):
+    N, D, c = case['N'], case['D'], case['c']
+    d, base, meta = make(N, D)
+    names = [m['name'] for m in meta]
+    obs.label('arm:col_rows')
+    k1 = realise(tuple(case['rk1']))
+    col = call(d.__getitem__, (k1, names[c] if case['by_name'] else c))
+    ref = base[k1, c]
+    if not obs.claim('values+meta', not raised(col) and np.array_equal(np.asarray(col), ref), lambda: 'column selection: %r' % (col,)):
+        return
+    k2 = realise(tuple(case['key2']))
+    got = call(col.__getitem__, k2)
+    try:
+        exp = ref[k2]
+    except Exception:
+        obs.claim('raise', raised(got), lambda: 'plain indexing refuses %r on %d values but the sample returned %r' % (case['key2'], len(ref), got))
+        return
+    obs.nontrivial = len(ref) <= 1 or (case['key2'][0] == 'ilist' and len(set(case['key2'][1])) < len(case['key2'][1]))
+    if not obs.claim('values', not raised(got) and np.shape(got) == np.shape(exp) and np.array_equal(np.asarray(got), exp),
+                     lambda: 'events %r of a column of %d: %r, plain indexing gives %r' % (case['key2'], len(ref), got, exp.tolist())):
+        return
+    if hasattr(got, 'channels') and np.ndim(got) >= 1:
+        gm = call(meta_of, got)
+        obs.claim('meta', not raised(gm) and gm == [meta[c]],
+                  lambda: 'events %r of a one-channel column of %d event(s): channel records %r, expected the record of %r only' % (
+                      case['key2'], len(ref), [m_.get('name') for m_ in gm] if not raised(gm) else gm, names[c]))
 
 
 def check(case, obs):
+    if case.get('arm') == 'col_rows':
+        return _check_col_rows(case, obs)
     N, D = case['N'], case['D']
     d, base, meta = make(N, D, via=case.get('via', 'path'))
     obs.label('loaded_from:' + case.get('via', 'path'))
